@@ -119,7 +119,7 @@ func (f *Frame) copyRel(t types.Type, a, b *Term, old, cur *State, top bool, dep
 		lb := LocVal{kind: locHeap, ref: b, rootT: et, T: et}
 		pa, pb := f.readRoot(old, la), f.readRoot(cur, lb)
 		return And(Eq(Eq(a, IntLit(0)), Eq(b, IntLit(0))),
-			Implies(Neq(b, IntLit(0)), And(f.isFresh(b), f.copyRel(et, pa, pb, old, cur, false, depth+1))))
+			Implies(Neq(b, IntLit(0)), And(f.isFresh(b), Lt(b, cur.alloc), f.copyRel(et, pa, pb, old, cur, false, depth+1))))
 	case *types.Slice:
 		et := u.Elem()
 		es := f.sortOf(et)
@@ -131,7 +131,7 @@ func (f *Frame) copyRel(t types.Type, a, b *Term, old, cur *State, top bool, dep
 		eb := Select(Select(En, SlcBase(b)), Slot(SlcOff(b), j))
 		body := Implies(And(Le(IntLit(0), j), Lt(j, SlcLen(b))), f.copyRel(et, ea, eb, old, cur, false, depth+1))
 		return And(Eq(SlcLen(a), SlcLen(b)),
-			Implies(Gt(SlcLen(b), IntLit(0)), f.isFresh(SlcBase(b))),
+			Implies(Gt(SlcLen(b), IntLit(0)), And(f.isFresh(SlcBase(b)), Lt(SlcBase(b), cur.alloc))),
 			Forall([]*Term{j}, body, []*Term{eb}))
 	case *types.Map:
 		ks, vs := f.sortOf(u.Key()), f.sortOf(u.Elem())
@@ -145,7 +145,7 @@ func (f *Frame) copyRel(t types.Type, a, b *Term, old, cur *State, top bool, dep
 		hb := And(Neq(b, IntLit(0)), Select(Select(Dn, b), k))
 		va, vb := Select(Select(Vo, a), k), Select(Select(Vn, b), k)
 		body := And(Eq(ha, hb), Implies(hb, f.copyRel(u.Elem(), va, vb, old, cur, false, depth+1)))
-		return And(Implies(Neq(b, IntLit(0)), f.isFresh(b)),
+		return And(Implies(Neq(b, IntLit(0)), And(f.isFresh(b), Lt(b, cur.alloc))),
 			Forall([]*Term{k}, body, []*Term{Select(Select(Dn, b), k)}))
 	case *types.Array:
 		panic(unsupported("copy relation for array type " + t.String()))
